@@ -215,7 +215,7 @@ def norm_msg(msg):
     return "_".join(words[:7])
 
 
-def _raw_name_on_line(src, msg, names):
+def _raw_name_on_line(src, msg, names, prefix="field_"):
     """Observational mechanism class: the offending line spells a non-identifier document name verbatim."""
     m = re.search(r"line (\d+)", msg)
     if not m or not names:
@@ -225,7 +225,8 @@ def _raw_name_on_line(src, msg, names):
     if not 0 <= i < len(lines):
         return False
     line = lines[i]
-    return any((not n.isidentifier()) and len(n) >= 3 and n in line for n in names)
+    return any((not n.isidentifier()) and ((len(n) >= 3 and n in line) or (n and re.search(r"\b" + re.escape(prefix) + re.escape(n) + r"(?!\w)", line)))
+               for n in names)
 
 
 def tree_violations(res, key, do_import=True, names=()):
